@@ -898,7 +898,7 @@ theorem rt_arr (np : NumPy) (fixed : Bool) (cap : Nat) (e : Ty) (ih : RT1 np e) 
         obtain ⟨b, h1, _, h3⟩ := ih hw.2 x (hty x hx)
         exact ⟨b, h1, h3 Py.none (Or.inl rfl)⟩)
       refine ⟨.list bs, by simp [toBuiltin, hns, hf, Except.map], rfl, fun cur _ => ?_⟩
-      simp only [updSlot, hc, if_true, hg, bind, Except.bind]
+      simp only [updSlot, hc, if_true, iterate, hg, bind, Except.bind]
       exact assignArray_list np fixed cap e xs
         (fun y hy => ⟨hall' y hy, fun _ => hasTy_comp_isObj e y hc (hty y hy)⟩) hl
     · -- array of primitives
@@ -1126,5 +1126,185 @@ theorem doImport_strop (reserved : String → Bool) (ex : List String → Bool) 
       simp only [doImport, hno, Bool.false_eq_true, if_false, hex, if_true]
       rw [hrec (pre ++ [c ++ "_"]) (by rw [hs])]
       simp [hs]
+
+/-! ## the region the setters do not check (round 2) -/
+
+theorem two_pow_lt_int (a b : Nat) (h : a < b) : (2 : Int) ^ a < (2 : Int) ^ b := by
+  have := Nat.pow_lt_pow_right (a := 2) (by decide) h
+  exact_mod_cast this
+
+theorem two_pow_le_int (a b : Nat) (h : a ≤ b) : (2 : Int) ^ a ≤ (2 : Int) ^ b := by
+  have := Nat.pow_le_pow_right (n := 2) (by decide) h
+  exact_mod_cast this
+
+theorem le_pickWidth (w : Nat) (h : w ≤ 64) : w ≤ pickWidth w := by
+  unfold pickWidth; repeat' split
+  all_goals omega
+
+/-- The candidate that defeats the setter of an array field outside `fullyChecked`: an ndarray of the element dtype
+and of full length whose elements are `max + 1` of the (narrower) DSDL integer type, resp. the integer 1 for an
+array of composites. -/
+def unsoundWitness : Ty → Py
+  | .arr _ cap (.int s w c) => .nd (dtypeOf (.int s w c)) (List.replicate cap (.int (intHi s w + 1)))
+  | .arr _ cap e => .nd (dtypeOf e) (List.replicate cap (.int 1))
+  | _ => .none
+
+/-- `max + 1` of a DSDL integer type narrower than its numpy dtype fits the dtype. -/
+theorem inDT_hi_succ (s : Bool) (w : Nat) (c : Bool) (h1 : 1 ≤ w) (hlt : w < pickWidth w) :
+    inDT (dtypeOf (.int s w c)) (.int (intHi s w + 1)) = true := by
+  cases s with
+  | true =>
+    have hp := two_pow_lt_int (w - 1) (pickWidth w - 1) (by omega)
+    have h0 := two_pow_pos' (w - 1)
+    have h0' := two_pow_pos' (pickWidth w - 1)
+    simp only [dtypeOf, inDT, intHi, if_true, Bool.and_eq_true, decide_eq_true_eq]
+    omega
+  | false =>
+    have hp := two_pow_lt_int w (pickWidth w) hlt
+    have h0 := two_pow_pos' w
+    simp only [dtypeOf, inDT, intHi, Bool.false_eq_true, if_false, Bool.and_eq_true, decide_eq_true_eq]
+    omega
+
+theorem lenOK_self (fixed : Bool) (cap : Nat) : lenOK fixed cap cap = true := by
+  unfold lenOK; split <;> simp
+
+/-- A same-dtype ndarray of permitted length is bound as it is (no oracle involved). -/
+theorem assignArray_nd_same (np : Oracle) (fixed : Bool) (cap : Nat) (e : Ty) (xs : List Py)
+    (hl : lenOK fixed cap xs.length = true) :
+    assignArray np fixed cap e (.nd (dtypeOf e) xs) = .ok (.nd (dtypeOf e) xs) := by
+  have henc : encodeStr fixed e (.nd (dtypeOf e) xs) = .nd (dtypeOf e) xs := by unfold encodeStr; split <;> rfl
+  simp only [assignArray, assignCore, henc]
+  split <;> simp [fastPath, hl, pure, Except.pure]
+
+/-- A value in the DSDL range of an integer type fits the numpy dtype chosen for it. -/
+theorem hasTy_int_inDT (s : Bool) (w : Nat) (c : Bool) (y : Py) (hw : w ≤ 64)
+    (h : hasTy true (.int s w c) y = true) : inDT (dtypeOf (.int s w c)) y = true := by
+  have hle := le_pickWidth w hw
+  cases y with
+  | int i =>
+    cases s with
+    | true =>
+      have hp := two_pow_le_int (w - 1) (pickWidth w - 1) (by omega)
+      simp only [hasTy, intLo, intHi, if_true, Bool.and_eq_true, decide_eq_true_eq] at h
+      simp only [dtypeOf, inDT, Bool.and_eq_true, decide_eq_true_eq]
+      omega
+    | false =>
+      have hp := two_pow_le_int w (pickWidth w) hle
+      simp only [hasTy, intLo, intHi, Bool.false_eq_true, if_false, Bool.and_eq_true, decide_eq_true_eq] at h
+      simp only [dtypeOf, inDT, Bool.and_eq_true, decide_eq_true_eq]
+      omega
+  | _ => simp [hasTy] at h
+
+/-! ## `update_from_builtin` and the union invariant -/
+
+theorem countSome_append (a b : List Py) : countSome (a ++ b) = countSome a + countSome b := by
+  simp [countSome, List.filter_append]
+
+theorem countSome_single (v : Py) (h : isNone v = false) : countSome [v] = 1 := by
+  simp [countSome, h]
+
+/-- Whatever `update_from_builtin` puts into a field is not `None`. -/
+theorem updSlot_not_none (np : Oracle) (t : Ty) (cur v nv : Py) (h : updSlot np t cur v = .ok nv) :
+    isNone nv = false := by
+  cases t with
+  | bool => simp only [updSlot] at h; exact setField_not_none _ _ _ _ h
+  | int s w c => simp only [updSlot] at h; exact setField_not_none _ _ _ _ h
+  | float w c => simp only [updSlot] at h; exact setField_not_none _ _ _ _ h
+  | arr fixed cap e =>
+    simp only [updSlot] at h
+    split at h
+    · split at h
+      · rename_i ss _
+        cases hm : ss.mapM (updSlot np e Py.none) with
+        | error _ => rw [hm] at h; simp [bind, Except.bind] at h
+        | ok objs =>
+          rw [hm] at h
+          simp only [bind, Except.bind] at h
+          exact setField_not_none np (.arr fixed cap e) _ _ (by simpa [setField] using h)
+      · simp at h
+    · exact setField_not_none np (.arr fixed cap e) _ _ (by simpa [setField] using h)
+  | comp cls union fs =>
+    simp only [updSlot] at h
+    split at h
+    · rename_i c slots vals extra _
+      cases hq : (if union = true then updU np fs vals [] slots else updS np fs slots vals) with
+      | error _ => rw [hq] at h; simp [bind, Except.bind] at h
+      | ok sl =>
+        rw [hq] at h
+        simp only [bind, Except.bind] at h
+        split at h
+        · simp [throw, throwThe, MonadExceptOf.throw] at h
+        · simp [pure, Except.pure] at h; subst h; rfl
+    · simp at h
+    · rename_i src _ _ c slots _ _ _
+      cases hp : positional union fs src with
+      | error _ => rw [hp] at h; simp [bind, Except.bind] at h
+      | ok vals =>
+        rw [hp] at h
+        simp only [bind, Except.bind] at h
+        cases hq : (if union = true then updU np fs vals [] slots else updS np fs slots vals) with
+        | error _ => rw [hq] at h; simp at h
+        | ok sl => rw [hq] at h; simp [pure, Except.pure] at h; subst h; rfl
+    · simp at h
+
+/-- The loop of `update_from_builtin` over the options of a union keeps "exactly one option is not `None`". -/
+theorem updU_one (np : Oracle) : ∀ (fs : List Ty) (vs before after res : List Py),
+    countSome (before ++ after) = 1 → updU np fs vs before after = .ok res →
+    countSome res = 1 ∧ res.length = before.length + after.length := by
+  intro fs
+  induction fs with
+  | nil =>
+    intro vs before after res h1 h
+    simp [updU, pure, Except.pure] at h; subst h
+    exact ⟨h1, by simp⟩
+  | cons f fs ih =>
+    intro vs before after res h1 h
+    cases vs with
+    | nil => simp [updU, pure, Except.pure] at h; subst h; exact ⟨h1, by simp⟩
+    | cons v vs =>
+      cases after with
+      | nil => simp [updU, pure, Except.pure] at h; subst h; exact ⟨by simpa using h1, by simp⟩
+      | cons s after =>
+        simp only [updU] at h
+        split at h
+        · obtain ⟨r1, r2⟩ := ih vs (before ++ [s]) after res (by simpa [List.append_assoc] using h1) h
+          exact ⟨r1, by simp at r2 ⊢; omega⟩
+        · cases hn : updSlot np f s v with
+          | error _ => rw [hn] at h; simp [bind, Except.bind] at h
+          | ok nv =>
+            rw [hn] at h
+            simp only [bind, Except.bind] at h
+            have hnn := updSlot_not_none np f s v nv hn
+            obtain ⟨r1, r2⟩ := ih vs (before.map (fun _ => Py.none) ++ [nv]) (after.map (fun _ => Py.none)) res
+              (by rw [countSome_append, countSome_append, countSome_nones, countSome_nones, countSome_single nv hnn]) h
+            exact ⟨r1, by simp at r2 ⊢; omega⟩
+
+/-! ## class identity -/
+
+theorem idxOf_inj {α : Type} [DecidableEq α] : ∀ (l : List α) (a b : α), a ∈ l → l.idxOf a = l.idxOf b → a = b := by
+  intro l
+  induction l with
+  | nil => intro a b h; simp at h
+  | cons x xs ih =>
+    intro a b ha h
+    simp only [List.idxOf_cons] at h
+    by_cases hxa : x = a
+    · by_cases hxb : x = b
+      · exact hxa.symm.trans hxb
+      · simp [hxa, hxb] at h
+        have : (a == b) = false := by simpa using fun hab => hxb (hxa.trans hab)
+        simp [this] at h
+    · by_cases hxb : x = b
+      · have h1 : (x == a) = false := by simpa using hxa
+        have h2 : (x == b) = true := by simpa using hxb
+        simp [h1, h2] at h
+      · have h1 : (x == a) = false := by simpa using hxa
+        have h2 : (x == b) = false := by simpa using hxb
+        simp only [h1, h2, cond_false] at h
+        have ha' : a ∈ xs := by
+          rcases List.mem_cons.1 ha with rfl | h'
+          · exact absurd rfl hxa
+          · exact h'
+        exact ih a b ha' (by omega)
 
 end NunavutVerif.PyObj
